@@ -4,7 +4,12 @@
 //! re-use of the functionality elsewhere, and also enable easier testing
 //! without needing to spool up the entire unifier.
 
-use std::collections::{HashSet, VecDeque};
+#[cfg(not(smlxl_storage_layout_extractor_verif))]
+use std::collections::HashSet;
+use std::collections::VecDeque;
+
+#[cfg(smlxl_storage_layout_extractor_verif)]
+use crate::verif::collections::HashSet;
 
 use itertools::Itertools;
 
